@@ -23,7 +23,8 @@ ID = "C10"
 LEVEL = "model_checking"
 RULE = (
     "live objects (A, B, C) from {(sqA, triA, bar) int, (hollow, dia, U) int, (triA, sqB, bar) float, (circle c8, fsq, ftri) "
-    "curved}; event menu: A|B, A&B, A-B, B-A, A^B, B in A, float(A.jordans[0]), A==B, A.move(1,1), A.scale(2,2), "
+    "curved, and three sets in which A (a square / two squares / a hollow square) starts 100 units away and move(A) brings it "
+    "across B and C}; event menu: A|B, A&B, A-B, B-A, A^B, B in A, float(A.jordans[0]), A==B, A.move(1,1), A.scale(2,2), "
     "A.rotate(pi/2); all histories of depth <= 2 (thorough 3) explored breadth-first on the real code, states "
     "de-duplicated on the full representation incl. cached lengths and subdivision; in every state the battery (area, "
     "moment, signed length and orientation of every curve, box, membership of a 5x5 grid, A==B, B in A, A in B, X|C, "
@@ -45,11 +46,34 @@ OPERANDS = {
     "hollow": (["PC", "hollow", "int"], ["L", "P.dia#int"], ["L", "P.U#int"]),
     "poly-float": (["L", "P.triA#float"], ["L", "P.sqB#float"], ["L", "P.bar#float"]),
     "curved": (["L", "Q.c8"], ["L", "Q.fsq"], ["L", "Q.ftri"]),
+    # A starts 100 units away from B and C (boxes disjoint) and move(A) brings it across them:
+    # anything cached while it was far away (boxes, lengths) must not survive the move
+    "poly-far": (["V", [[-100, 0], [-90, 0], [-90, 10], [-100, 10]]], ["L", "P.triA#int"], ["L", "P.bar#int"]),
+    "compound-far": (["DV", [[[-100, 1], [-90, 1], [-90, 11], [-100, 11]], [[-80, 1], [-70, 1], [-70, 11], [-80, 11]]]], ["L", "P.inner#int"], ["L", "P.bar#int"]),
+    "hollow-far": (["CV", [[-105, -5], [-85, -5], [-85, 16], [-105, 16]], [[-99, 6], [-99, 9], [-91, 9], [-91, 6]]], ["L", "P.inner#int"], ["L", "P.bar#int"]),
+}
+# per operand set: translation of move(A), factors of scale(A), angle of rotate(A)
+PARAMS = {
+    "poly-far": ((100, 0), (2, 2), "pi"),
+    "compound-far": ((102, 0), (2, 2), "pi"),
+    "hollow-far": ((102, 0), (2, 2), "pi"),
 }
 
 
-def apply_event(ev, A, B):
+def build_operand(e):
+    from .. import lib
+
+    if e[0] == "DV":
+        return lib.DisjointShape([al.verts_shape(v) for v in e[1]])
+    if e[0] == "CV":
+        return lib.ConnectedShape([al.verts_shape(e[1]), al.verts_shape(e[2])])
+    return al.lib_eval(e)
+
+
+def apply_event(ev, A, B, name=None):
     import math
+
+    mv, sc, ang = PARAMS.get(name, ((1, 1), (2, 2), "pi/2"))
 
     if ev == "A|B":
         return A | B
@@ -68,11 +92,11 @@ def apply_event(ev, A, B):
     if ev == "A==B":
         return A == B
     if ev == "move(A)":
-        return A.move(1, 1)
+        return A.move(*mv)
     if ev == "scale(A)":
-        return A.scale(2, 2)
+        return A.scale(*sc)
     if ev == "rotate(A)":
-        return A.rotate(math.pi / 2)
+        return A.rotate(math.pi if ang == "pi" else math.pi / 2)
     raise ValueError(ev)
 
 
@@ -179,12 +203,12 @@ def cases(tier, seed):
     its prefix breadth-first.  quick: all histories of depth <= 1 (+ depth 2 for the int
     polygons); thorough: depth 3 for the int polygons, 2 for the others, 1 for curved."""
     specs = []
-    cost = {"poly-int": 2, "hollow": 5, "poly-float": 2, "curved": 20}
+    cost = {"poly-int": 2, "hollow": 5, "poly-float": 2, "curved": 20, "poly-far": 2, "compound-far": 3, "hollow-far": 3}
     for name in OPERANDS:
         if tier == "quick":
-            total = 2 if name == "poly-int" else 1
+            total = 2 if name in ("poly-int", "poly-far", "compound-far", "hollow-far") else 1
         else:
-            total = {"poly-int": 3, "hollow": 2, "poly-float": 2, "curved": 1}[name]
+            total = {"poly-int": 3, "hollow": 2, "poly-float": 2, "curved": 1, "poly-far": 3, "compound-far": 2, "hollow-far": 2}[name]
         specs.append({"id": "H:%s:root" % name, "operands": name, "prefix": [], "depth": 0, "cost": cost[name]})
         for i, ev in enumerate(EVENTS):
             if total >= 3:
@@ -192,7 +216,7 @@ def cases(tier, seed):
                 for j, ev2 in enumerate(EVENTS):
                     specs.append({"id": "H:%s:%s;%s" % (name, ev, ev2), "operands": name, "prefix": [i, j], "depth": total - 2, "cost": cost[name] * 12})
             else:
-                specs.append({"id": "H:%s:%s" % (name, ev), "operands": name, "prefix": [i], "depth": total - 1, "cost": cost[name] * (12 if total > 1 else 1)})
+                specs.append({"id": "H:%s:%s" % (name, ev), "operands": name, "prefix": [i], "depth": total - 1, "cost": cost[name] * (12 if total > 1 else 1), "second_transform_only": tier == "quick" and name in PARAMS})
     specs.append({"id": "config", "config": True, "cost": 100})
     return specs
 
@@ -208,15 +232,15 @@ def frames_for(A, B, C):
 def check_state(name, hist):
     """Replays hist on fresh operands, then compares live vs fresh battery."""
     ea, eb, ec = OPERANDS[name]
-    rational = name in ("poly-int", "hollow")
+    rational = name in ("poly-int", "hollow", "poly-far", "compound-far", "hollow-far")
     LEN_TOL[0] = 1e-5 if name == "curved" else 1e-9
     # curved pieces may be degree-reduced within the library's tolerance when split (C15)
     NUM_TOL[0] = 2e-6 if name == "curved" else 1e-9
 
     def live():
-        A, B, C = al.lib_eval(ea), al.lib_eval(eb), al.lib_eval(ec)
+        A, B, C = build_operand(ea), build_operand(eb), build_operand(ec)
         for i in hist:
-            st, _ = call_limited(lambda: apply_event(EVENTS[i], A, B), 120)
+            st, _ = call_limited(lambda: apply_event(EVENTS[i], A, B, name), 120)
         return A, B, C
 
     A, B, C = live()
@@ -294,7 +318,16 @@ def run_case(spec):
         state = check_state(name, spec["history"])
         res = {"states": 1, "transitions": 1, "violations": [(spec["history"][len(prefix):], t, m) for t, m in state[1]], "max_depth": 0, "capped": False}
     else:
-        res = explore.bfs(build, list(range(len(EVENTS))), canon, invariant, spec["depth"])
+        far = name in PARAMS
+        transforms = {EVENTS.index(e) for e in ("move(A)", "scale(A)", "rotate(A)")}
+
+        def enabled(h, ev):
+            # far sets, quick tier: the second event is a transformation (warm caches, then move)
+            if far and spec.get("second_transform_only") and len(prefix) + len(h) >= 1:
+                return ev in transforms
+            return True
+
+        res = explore.bfs(build, list(range(len(EVENTS))), canon, invariant, spec["depth"], enabled=enabled)
     seen = set()
     for h, tag, msg in res["violations"]:
         full = prefix + h if spec.get("history") is None else spec["history"]
